@@ -473,31 +473,40 @@ theorem gt1_declEncoding {s s' : Stream} (pend : Bytes) (hpend : Sp0 T pend)
     exact ⟨run, [], sd, s4, t3, k3, Or.inl rfl, hsd, hs4, by rw [he]; simp only [List.nil_append]⟩
 
 theorem parseDeclaration_decl {s s' : Stream} (hs : SOk txt s)
-    (hp : s.startsWith Lit.xmlDecl = true) (h : parseDeclaration T txt s = .ok s') :
+    (hp : s.startsWithXmlDecl T = true) (h : parseDeclaration T txt s = .ok s') :
     ∃ decl, Took s s' decl ∧ SOk txt s' ∧ XmlDecl T decl := by
-  obtain ⟨r, hr⟩ := List.isPrefixOf_iff_prefix.mp hp
-  have hr' : s.rest = litXmlDeclOpen ++ 32 :: r := by rw [← hr]; rfl
-  have h5 : s.startsWith litXmlDeclOpen = true := by
-    apply List.isPrefixOf_iff_prefix.mpr
-    exact ⟨32 :: r, hr'.symm⟩
+  -- `<?xml` and a white-space byte
+  simp only [Stream.startsWithXmlDecl, Bool.and_eq_true] at hp
+  obtain ⟨h5, h6⟩ := hp
+  have h5 : s.startsWith litXmlDeclOpen = true := h5
+  obtain ⟨r0, hr0⟩ := List.isPrefixOf_iff_prefix.mp h5
+  obtain ⟨b, r, hr', hb⟩ : ∃ b r, s.rest = litXmlDeclOpen ++ b :: r ∧ byteIsSpace T b = true := by
+    rw [← hr0] at h6
+    have e : (litXmlDeclOpen ++ r0).drop 5 = r0 := rfl
+    rw [e] at h6
+    cases r0 with
+    | nil => cases h6
+    | cons b r => exact ⟨b, r, hr0.symm, h6⟩
   unfold parseDeclaration at h
   obtain ⟨s1, h1, h⟩ := gt1_res_bind_ok h
   obtain ⟨s2, h2, h⟩ := gt1_res_bind_ok h
   have k1 := (advance_lit hs litXmlDeclOpen h5 (lit_valid _ (by decide))).post _ h1
   have t1 : Took s s1 litXmlDeclOpen := advance_took litXmlDeclOpen h5 h1
-  have hr1 : s1.rest = 32 :: r := by
+  have hr1 : s1.rest = b :: r := by
     have := t1.eq
     rw [hr'] at this
     exact (List.append_cancel_left this).symm
   have k2 := (declConsumeSpaces_spec T hT txt k1.1.2).post _ h2
-  obtain ⟨sp1, t2, hsp1, hsp10⟩ := declConsumeSpaces_took T txt h2
-  have hsp1ne : sp1 ≠ [] := by
-    intro h0
-    subst h0
-    have e := gt1_took_nil_rest t2
-    rcases hsp10 rfl with h | h
-    · rw [e, hr1] at h; cases h
-    · simp [Stream.startsWith, e, hr1, Lit.piEnd] at h
+  -- the white-space byte is consumed by the first `declConsumeSpaces`
+  have hss : s1.startsWithSpace T = true := by
+    simp only [Stream.startsWithSpace, hr1, hb]
+  have e2 : s2 = s1.skipSpaces T := by
+    unfold declConsumeSpaces at h2
+    simp only [hss, if_true, Res.ok.injEq] at h2
+    exact h2.symm
+  obtain ⟨sp1, t2, hsp1, hne⟩ := skipSpaces_took T s1
+  rw [← e2] at t2
+  have hsp1ne : sp1 ≠ [] := hne hss
   split at h
   · rename_i hnv
     unfold Stream.skipString at h
